@@ -285,6 +285,45 @@ def _norm_lambda(e):
     return A.text(e)
 
 
+def run_W9(chk):
+    """W9: one jump of a line across a tensor resolves as many pending crossings as legs it is declared to have crossed.  A jump from a
+    single leg (`jump(C, ax, partner)`) removes exactly the crossing that belongs to that partner (key and partner unpacked from the
+    same entry); removing *all* crossings of a leg in a loop is right only where the jump crosses the whole contracted bundle, which
+    the resolver guards by its sanity assertion `len(<crossings>) == len(<bundle>)`.  A discard loop without that guard loses the
+    swap gates of the crossings that were removed but not jumped."""
+    prog = chk.prog
+    chk.rule("W9", "the pending crossings discarded before a jump are those the jump resolves (all of them only under the bundle-size assertion)", floor=2)
+    rbs = prog.func(EIN, "_resolve_bad_swaps")
+    par = A.enclosing_map(rbs.node)
+    n = 0
+    for c in A.walk_local(rbs.node, include_self=False):
+        if not (isinstance(c, ast.Call) and A.call_name(c) == "jump"):
+            continue
+        st = A.stmt_of(c, par)
+        blk = A.block_of(st, par)
+        before = blk[:blk.index(st)] if blk and st in blk else []
+        loops = [b_ for b_ in before if isinstance(b_, ast.For) and any(isinstance(x, ast.Call) and isinstance(x.func, ast.Attribute) and x.func.attr == "discard" for x in ast.walk(b_))]
+        single = [b_ for b_ in before if isinstance(b_, ast.Expr) and isinstance(b_.value, ast.Call) and isinstance(b_.value.func, ast.Attribute) and b_.value.func.attr == "discard"]
+        n += 1
+        if loops:
+            X = A.text(loops[-1].iter)
+            guards = [b_ for b_ in before if isinstance(b_, ast.Assert) and f"len({X})" in A.text(b_.test) and isinstance(b_.test, ast.Compare) and isinstance(b_.test.ops[0], ast.Eq)]
+            chk.verdict("W9", (rbs, st), f"`{A.short(st, 40)}`: all crossings of `{X}` discarded under the bundle-size assertion", True if guards else False,
+                        f"_resolve_bad_swaps: before `{A.short(st, 40)}` every pending crossing in `{X}` is discarded, but nothing asserts that their number equals "
+                        f"the number of legs the jump crosses: a jump from one leg compensates one crossing, the other discarded crossings lose their swap gates "
+                        f"(wrong sign when the line crosses two or more, but not all, legs of a contracted bundle)")
+        elif single:
+            # key and partner come from the same entry
+            key = A.text(single[-1].value.args[0]) if single[-1].value.args else "?"
+            partner = A.text(c.args[2]) if len(c.args) >= 3 else "?"
+            same = any(isinstance(b_, ast.Assign) and isinstance(b_.targets[0], ast.Tuple) and {key, partner} <= set(A.assigned_names(b_.targets[0])) for b_ in before)
+            chk.verdict("W9", (rbs, st), f"`{A.short(st, 40)}`: discards `{key}`, jumps to `{partner}` (one entry)", True if same else False,
+                        f"_resolve_bad_swaps: the crossing discarded (`{key}`) and the partner jumped to (`{partner}`) are not taken from the same entry")
+        else:
+            chk.bad("W9", (rbs, st), st, "_resolve_bad_swaps: a jump is made without discarding the crossing it resolves")
+    chk.require(n >= 2, f"_resolve_bad_swaps: {n} jump call sites found (2 confirmed by hand)")
+
+
 def run_W8(chk):
     """W8: pending swaps form a Z2 set -- a crossing applied twice is no crossing.  In _resolve_bad_swaps every insertion into the set of
     pending swaps is a *toggle*: `symmetric_difference_update({k})` / `^=`, or `add(k)` on the branch where `k` was tested to be absent
@@ -512,6 +551,7 @@ def run(chk):
     chk.rule("W6", "ncon/einsum: the tables of open edges and of pending swaps are renumbered by the same maps after every command", floor=8)
     run_W6(chk)
     run_W8(chk)
+    run_W9(chk)
     sg = prog.func(CON, "swap_gate")
     msg = prog.func(CON, "_meta_swap_gate")
     msgc = prog.func(CON, "_meta_swap_gate_charge")
